@@ -120,6 +120,12 @@ def enumerate_cases(tier, seed):
     if c["alpha"] == "auto_po2" and c["symmetric"] == 1 and c["keep_negative"] is True and not c["pts"] \
         and c["bits"] in (4, 8) and c["min_po2"] is None and c["max_po2"] is None and c["eps"] is None:
       out.append(dict(c, route="hook"))
+  # a quantizer rebuilt from its own configuration (what every saved / cloned model contains): the rebuilt object is
+  # held to the clauses of the configuration it was built from - exponent bounds, grouping, axis
+  for c in list(out):
+    if not c.get("route") and c["alpha"] == "auto_po2" and not c["pts"] and (
+        c["min_po2"] is not None or c["max_po2"] is not None or c["eps"] is not None or c["scale_axis"] is not None):
+      out.append(dict(c, route="roundtrip"))
   seen, uniq = set(), []
   for c in out:
     key = repr(sorted(c.items(), key=lambda kv: kv[0]))
@@ -148,6 +154,9 @@ def make(cfg, shape):
     q(tf.ones(shape))
     q._set_trainable_parameter()   # pylint: disable=protected-access
     return q
+  if cfg.get("route") == "roundtrip":
+    q = make(dict(cfg, route=None), shape)
+    return type(q).from_config(q.get_config())
   if cfg["cls"] == "quantized_bits":
     return Q.quantized_bits(bits=cfg["bits"], integer=cfg["integer"], alpha=cfg["alpha"],
                             scale_axis=cfg["scale_axis"], elements_per_scale=cfg["eps"],
@@ -198,7 +207,7 @@ def run_case(cfg):
   def bad(clause, what, **detail):
     if len(viol) < 8:
       viol.append({"key": "%s:%s:%s" % (cfg["cls"], clause, cfg["alpha"] + (":frozen" if cfg["pts"] else "") +
-                                          (":via-layer-hook" if cfg.get("route") else "")),
+                                          ({"hook": ":via-layer-hook", "roundtrip": ":rebuilt-from-config"}.get(cfg.get("route"), ""))),
                    "what": "%s %s: %s" % (cfg["cls"], clause, what), "detail": dict(cfg=cfg, **detail)})
 
   evals = 0
